@@ -384,6 +384,11 @@ def _wl_case(draw):
             names.append(n)
             init[n] = draw(st.sampled_from(["valid", "valid", "broken"]))
             later[n] = draw(st.sampled_from(["same", "same", "break", "fix", "edit"]))
+    # pages that only appear after the first indexing run: valid, or broken from the start
+    for n in draw(st.lists(st.sampled_from(["m_new.zo", "zz_new.zo", "a0_new.zo", "sub/n_new.zo"]), max_size=2, unique=True)):
+        names.append(n)
+        init[n] = "absent"
+        later[n] = draw(st.sampled_from(["add-valid", "add-broken", "add-broken"]))
     return {"names": names, "init": init, "later": later, "cmd": draw(st.sampled_from(["create", "reindex"])),
             "today": "2024-06-15"}
 
@@ -402,6 +407,8 @@ def check_whitelist(case, rec: Rec) -> None:
         zdir.mkdir()
         state = dict(case["init"])
         for i, n in enumerate(names):
+            if state[n] == "absent":
+                continue
             (zdir / n).parent.mkdir(parents=True, exist_ok=True)
             (zdir / n).write_text(_wl_text(n, state[n], i))
         with rec.sut("db-create-f"):
@@ -425,8 +432,24 @@ def check_whitelist(case, rec: Rec) -> None:
                 (zdir / n).write_text(_wl_text(n, "valid", i))
             elif act == "edit":
                 (zdir / n).write_text(_wl_text(n, state[n], i, edit=True))
+            elif act in ("add-valid", "add-broken"):
+                state[n] = "valid" if act == "add-valid" else "broken"
+                (zdir / n).parent.mkdir(parents=True, exist_ok=True)
+                (zdir / n).write_text(_wl_text(n, state[n], i))
+                if state[n] == "broken":
+                    newly_broken.append(n)
         with rec.sut("db-" + case["cmd"]):
             r = env.zorg(zdir, "db", case["cmd"])
+        if newly_broken and r.code != 0:
+            # refused: the very same command must keep refusing until the page is repaired or whitelisted
+            for again in (2, 3):
+                with rec.sut("db-" + case["cmd"] + "-again"):
+                    r2 = env.zorg(zdir, "db", case["cmd"])
+                if r2.code == 0:
+                    raise Violation(case["cmd"] + "-accepts-broken-page-on-rerun",
+                                    f"`db {case['cmd']}` refused {newly_broken} (exit {r.code}) but run #{again} of the same "
+                                    f"command exited 0 although nothing was repaired or whitelisted")
+            rec.label("wl-refusal-repeated")
         if newly_broken and r.code == 0:
             raise Violation(case["cmd"] + "-accepts-broken-page",
                             f"`db {case['cmd']}` exited 0 although {newly_broken} became broken and are not "
